@@ -49,6 +49,9 @@ uint64_t __CPROVER_uninterpreted_gv_const(uint64_t);
 #define GV_LEQ(a, b) (__CPROVER_uninterpreted_gv_leq(a, b) != 0)
 #define GV_TOPID __CPROVER_uninterpreted_gv_const(1)   /* what GV::top() returns */
 #define GV_BOTID __CPROVER_uninterpreted_gv_const(0)   /* what GV::bottom() returns */
+/* hypothesis on the ghost value lattice, needed where a looked-up default is stored again (project, rename):
+ * Value::top() is top and is not bottom */
+#define GV_LATTICE_HYP (GV_ISTOP(GV_TOPID) && !GV_ISBOT(GV_TOPID))
 /* ---- finite-map observers of a tree root: uninterpreted */
 unsigned char __CPROVER_uninterpreted_m_has(void *, uint64_t);
 uint64_t __CPROVER_uninterpreted_m_val(void *, uint64_t);
@@ -99,6 +102,33 @@ static inline bool sd_ok(const SD *x){ return x->f0 <= 1; }
 static inline bool sd_bot(const SD *x){ return x->f0 != 0; }
 /* same abstract value: same flag, same tree */
 static inline bool sd_same(const SD *x, unsigned char bot, void *root){ return x->f0 == bot && ROOT(x->f1) == root; }
+/* ---- the environment as a TOTAL map with default top (the reading of property C19): the value looked up at key k */
+#define AT_ROOT(root, k) (M_has(root, k) ? M_val(root, k) : GV_TOPID)
+/* representation invariant of separate_domain at key k: a binding is never top and never bottom (set() removes the key
+ * for top and makes the whole environment bottom for bottom; the merge operation objects do the same: join_apply ..) */
+#define SD_INV_AT(root, k) (!M_has(root, k) || (!GV_ISTOP(M_val(root, k)) && !GV_ISBOT(M_val(root, k))))
+/* ---- iteration (patricia_tree::iterator): ASSUMED to list the finite map.  The listing of a root is known through two
+ * more uninterpreted observers:  M_key(root,i) = the key listed at position i (0 <= i < M_size(root)),
+ * M_idx(root,k) = the position at which key k is listed.  An iterator is an abstract pair (root, position); the pair is
+ * carried in the first two words of the iterator object (its _current shared_ptr), which nothing else reads because
+ * every function that looks inside an iterator (begin, end, ++, !=, ->, destructor) is dropped and replaced by its
+ * contract.  end() is (null, 0); an iterator is AT END when its root is null or its position has reached M_size. */
+uint64_t __CPROVER_uninterpreted_m_key(void *, uint64_t);
+uint64_t __CPROVER_uninterpreted_m_idx(void *, uint64_t);
+#define M_key(r, i) __CPROVER_uninterpreted_m_key(r, i)
+#define M_idx(r, k) __CPROVER_uninterpreted_m_idx(r, k)
+/* a genuine K object carries K's v-table pointer (std::_Destroy of a std::vector<K> calls the virtual destructor) */
+extern const struct anon_f0db2cc371 _ZTV1K;
+#define VT_K ((void *)&_ZTV1K.f0.a[2])
+#define K_OK(k) ((void *)(k)->f0.f0 == VT_K)
+typedef struct S_class_ikos__patricia_tree_K__GV___iterator IT;
+typedef struct S_class_boost__iterators__iterator_facade ITF;               /* empty base: the pointer IS the iterator */
+typedef struct S_class_boost__iterators__detail__iterator_facade_base ITB;  /* empty base: the pointer IS the iterator */
+typedef struct anon_33d47aef52 BND;                                           /* binding_t = { const K &first; const GV &second; } */
+#define IT_ROOT(it) ((void *)((const IT *)(it))->f0.f0.f0.f0)
+#define IT_POS(it) (*(const uint64_t *)&((const IT *)(it))->f0.f0.f0.f1)
+#define IT_ATEND(it) (IT_ROOT(it) == (void *)0 || IT_POS(it) >= M_size(IT_ROOT(it)))
+#define IT_EQ(a, b) ((IT_ATEND(a) && IT_ATEND(b)) || (!IT_ATEND(a) && !IT_ATEND(b) && IT_ROOT(a) == IT_ROOT(b) && IT_POS(a) == IT_POS(b)))
 /* boost::optional<GV>: f0.f0 = m_initialized, f0.f2 = storage */
 static inline bool opt_some(const OPT *o){ return o->f0.f0 != 0; }
 static inline uint64_t opt_val(const OPT *o){ return *(const uint64_t *)&o->f0.f2; }
